@@ -92,6 +92,9 @@ type ExitIn struct {
 	End       string `json:"end"`             // TERM | INT | exit | fatal
 	HandlerMs int    `json:"handler_ms"`      // how long each handler takes (grace + Shutdown)
 	Again     string `json:"again,omitempty"` // a second terminating event 60 ms after the first
+	// the terminating event is sent right after the last SIGHUP, without giving the process time to handle the
+	// SIGHUP first (logrotate's HUP immediately followed by the supervisor's TERM)
+	Rush bool `json:"rush,omitempty"`
 }
 
 type ExitOut struct {
@@ -136,12 +139,35 @@ func runExit(in *ExitIn) (*ExitOut, error) {
 	}
 	defer pr.Close()
 	cmd.Stdout = pw
-	cmd.Stderr = nil // /dev/null
-	if err := cmd.Start(); err != nil {
+	// stderr carries package exit's log lines; "Caught SIGHUP" is the only outside sign that a SIGHUP has been
+	// handled (the listener re-arms itself right after logging it)
+	er, ew, err := os.Pipe()
+	if err != nil {
+		pr.Close()
 		pw.Close()
 		return nil, err
 	}
+	defer er.Close()
+	cmd.Stderr = ew
+	if err := cmd.Start(); err != nil {
+		pw.Close()
+		ew.Close()
+		return nil, err
+	}
 	pw.Close()
+	ew.Close()
+	hupSeen := make(chan struct{}, 64)
+	go func() {
+		sc := bufio.NewScanner(er)
+		for sc.Scan() {
+			if strings.Contains(sc.Text(), "SIGHUP") {
+				select {
+				case hupSeen <- struct{}{}:
+				default:
+				}
+			}
+		}
+	}()
 	type line struct {
 		s  string
 		at time.Time
@@ -204,9 +230,21 @@ wait:
 	out := &ExitOut{Calls: []string{}}
 	for i := 0; i < in.Hups; i++ {
 		cmd.Process.Signal(syscall.SIGHUP)
+		if in.Rush && i == in.Hups-1 {
+			break // the terminating event follows at once
+		}
+		// wait until the process has handled it (signals sent faster than they are handled are merged or, the
+		// listener's channel holding one signal, dropped: that is the class "rush")
+		select {
+		case <-hupSeen:
+		case <-time.After(2 * time.Second):
+			out.Notes = append(out.Notes, fmt.Sprintf("no log line for SIGHUP %d within 2 s", i+1))
+		}
 		collect(time.Duration(in.Gap) * time.Millisecond)
 	}
-	collect(100 * time.Millisecond)
+	if !in.Rush || in.Hups == 0 {
+		collect(100 * time.Millisecond)
+	}
 	out.Ignored = len(got) == 0
 	select {
 	case <-exited:
@@ -322,6 +360,8 @@ func init() {
 				in.Handlers = r.Range(1, 3)
 				if r.Chance(1, 3) {
 					in.Again = r.Pick(ends)
+				} else if in.Hups > 0 && r.Chance(1, 6) {
+					in.Rush = true
 				}
 			}
 			return in
@@ -339,7 +379,8 @@ func init() {
 			if err != nil {
 				return nil, err
 			}
-			if !out.Ignored || out.Exit != "in-time" || !out.Drained { // measure again, report the second
+			// measure again, report the second — except in the class "rush", where a lost signal is the recorded finding
+			if (!out.Ignored || out.Exit != "in-time" || !out.Drained) && !in.Rush {
 				first := out
 				if out, err = runExit(&in); err != nil {
 					return nil, err
